@@ -170,6 +170,10 @@ fn build_db(spec: &DbSpec, headers: &[ExtendedHeader]) -> Result<Arc<Database>, 
                     r.insert(key, *rg).map_err(|e| e.to_string())?;
                 }
             }
+            if let Some(sm) = &spec.sampled {
+                let mut r = tx.open_table(RANGES_TABLE).map_err(|e| e.to_string())?;
+                r.insert(V2_SAMPLED_RANGES_KEY, sm.clone()).map_err(|e| e.to_string())?;
+            }
         } else {
             let mut r = tx.open_table(RANGES_TABLE).map_err(|e| e.to_string())?;
             r.insert(HEADER_RANGES_KEY, spec.stored.clone()).map_err(|e| e.to_string())?;
@@ -338,7 +342,9 @@ impl Mon<'_> {
             ctx.count("databases_with_headers_v1_v3");
         }
         let stored = gen_ranges(rng, with_headers);
-        let sampled = if version == 1 || rng.gen_ratio(1, 6) {
+        // a v1 database may already hold sampled ranges in STORE.RANGES under the pre-v3 key: it then
+        // has to go through both migration steps (v1 -> v2 -> v3)
+        let sampled = if (version == 1 && rng.gen_bool(0.5)) || (version != 1 && rng.gen_ratio(1, 6)) {
             None
         } else if rng.gen_bool(0.8) {
             Some(sub_ranges(rng, &stored))
